@@ -78,6 +78,34 @@ CHECKS = {
         "Trusted: structural equality; client = fresh invocation object with cleared process-local cache; scheduler stand-ins.",
         "DESIGN.md 3 C05",
     ),
+    "C09": (
+        "exploration",
+        "Hypothesis stateful machine of the wait graph on both backends vs a reference definition + generated call trees executed by the real ThreadRunner loop under a deterministic scheduler in virtual time",
+        "Wait declarations, status changes (finals release waiters) and get_blocking_invocations(n) for n in {0,1,2,3,100} are compared with the definition (reported iff waited-on, runnable, not itself waiting; duplicate-free, size min(n, |set|)) on Mem and SQLite in lock-step; generated trees (depth <= 3, fan-out <= 3, .result chains and parallelize groups) run on ThreadRunner.run() with 1-2 slots, every thread an actor: the root must reach SUCCESS with the denoted value, a scheduler-level proof of no progress is a violation, a budget hit is inconclusive.",
+        "Trusted: wait-graph definition A.7; declarations only on non-final targets; bounded liveness (stall = observable state unchanged over 32k fair scheduling steps).",
+        "DESIGN.md 3 C09, A.7",
+    ),
+    "C11": (
+        "fault_enumeration",
+        "fault enumeration of the stop instant: the stop request injected at scheduling step k of a deterministic-scheduler run of the real ThreadRunner loop (virtual time), k enumerated over the run; oracle over the monitor log and the final store",
+        "For six workloads (independent, slow bodies, retries, parents waiting on children singly/grouped, mixed) x slots x Mem/SQLite the un-stopped reference run gives T steps; the stop is injected at every k (thorough) or at an even stride plus the neighbourhood of every status change (quick). run() must return, and every invocation the runner ever claimed must be final or available, un-owned and queued; nothing PENDING/RUNNING/KILLED under the stopped runner.",
+        "Trusted: scheduler stand-ins; stop = stop_runner_loop() at step k once the loop has started; bounded liveness. One listed known finding (join on a thread waiting for a sub-task) is excluded by construction and counted.",
+        "DESIGN.md 3 C11",
+    ),
+    "C13": (
+        "exploration",
+        "Hypothesis histories vs a pending-occurrence model on both trigger stores, brute-force cron evaluator with an own field matcher, bounded-preemption schedule search of concurrent trigger-loop iterations",
+        "Ten trigger configurations (single/OR/AND over event, status, result, exception conditions; static and per-context argument providers; shared conditions) x generated histories with several occurrences pending at once: launches and their arguments per loop iteration must equal the model's (exactly once per occurrence for OR/single, once per complete set for AND, nothing left pending); generated cron expressions x window/min-interval/strict settings x poll sequences (incl. window-edge +-1us and bursts) against an independent evaluator; two concurrent loop iterations (+ reporter) on Mem and SQLite under all schedules with <= 1 (2) forced switches: one launch per occurrence.",
+        "Trusted: occurrence model A.9; cron family restricted to minute/hour fields; scheduler stand-ins.",
+        "DESIGN.md 3 C13, A.9",
+    ),
+    "C17": (
+        "exploration",
+        "Hypothesis over adversarial application-id pairs/triples: metamorphic isolation oracle (snapshot of app B unchanged by any operation on app A) on a shared SQLite file and in one process, plus the real purge selection on scratch databases",
+        "Ids are generated as punctuation/case variants, strings equal to or extending another id's computed storage prefix (with component suffixes and LIKE-wildcard shapes), SQL metacharacters, unicode, whitespace, leading digits, long ids. Table names must be identifiers, distinct case-insensitively, and no component purge of A may select a table of B (real delete_tables_with_prefix on a scratch DB); 2-3 apps sharing one file run interleaved operations incl. every component purge: every other app's snapshot (public read-out + exact table dump) must stay identical.",
+        "Trusted: snapshot read-out (public APIs + dump of exactly the tables named by the component's Tables object).",
+        "DESIGN.md 3 C17, A.14",
+    ),
 }
 
 NOT_YET = "check not built yet in this session (work in progress, see DESIGN.md section 3)"
